@@ -68,7 +68,7 @@ def seeds_summary():
             if name in first or not ch:
                 continue
             first[name] = (os.path.basename(log)[:2], any(isinstance(v, dict) and v.get("violations", 0) > 0 for v in ch.values()))
-    rounds = (("1", ("01", "02", "03", "04", "05")), ("2", ("06", "07")), ("3", ("08", "09")), ("4", ("10",)), ("5", ("14",)))
+    rounds = (("1", ("01", "02", "03", "04", "05")), ("2", ("06", "07")), ("3", ("08", "09")), ("4", ("10",)), ("5", ("14",)), ("6", ("17",)))
     lines = ["| round | seeds | caught at first evaluation |", "|---|---|---|"]
     for r, pre in rounds:
         xs = [c for (l, c) in first.values() if l in pre]
